@@ -18,7 +18,12 @@ from ..fx import make_xknx, start_xknx, stop_xknx
 from ..vloop import ms, virtual_world
 
 
-def run_hist(cd_ms, events, seed=0, periodic_ms=0):
+# the values behind the abstract values 1..4 of a history.  "percent" (DPT 5.001): 50 and 49.9 travel as different octets (0x80, 0x7F)
+# that both read back as 50 - what is "on the bus" is the octet
+VALS = {"pulse": {1: 1, 2: 2, 3: 3, 4: 4}, "percent": {1: 50, 2: 49.9, 3: 10, 4: 70}}
+
+
+def run_hist(cd_ms, events, seed=0, periodic_ms=0, vt="pulse"):
     """events: list of (gap_ms, kind, value) with kind in set | skip | init | read"""
     from xknx.devices import ExposeSensor
     from xknx.telegram import GroupAddress, IndividualAddress, Telegram, TelegramDirection
@@ -30,7 +35,8 @@ def run_hist(cd_ms, events, seed=0, periodic_ms=0):
 
         async def main():
             xknx, sent = make_xknx(loop)
-            es = ExposeSensor(xknx, "e", group_address="1/1/1", value_type="pulse", cooldown=cd_ms / 1000, periodic_send=periodic_ms / 1000)
+            es = ExposeSensor(xknx, "e", group_address="1/1/1", value_type=vt, cooldown=cd_ms / 1000, periodic_send=periodic_ms / 1000)
+            wire = {es.sensor_value.to_knx(x).value[0]: k for k, x in VALS[vt].items()}
             xknx.devices.async_add(es)
             await start_xknx(xknx)
             orig = xknx.knxip_interface.send_cemi
@@ -38,22 +44,24 @@ def run_hist(cd_ms, events, seed=0, periodic_ms=0):
             async def send_cemi(cemi):
                 p = cemi.data.payload
                 if isinstance(p, (GroupValueWrite, GroupValueResponse)):
-                    ev.append({"ev": "tx", "kind": "write" if isinstance(p, GroupValueWrite) else "response", "v": p.value.value[0], "t": now()})
+                    ev.append({"ev": "tx", "kind": "write" if isinstance(p, GroupValueWrite) else "response", "v": wire.get(p.value.value[0], 99), "t": now()})
                 await orig(cemi)
 
             xknx.knxip_interface.send_cemi = send_cemi
             for gap, kind, v in events:
                 if gap:
                     await asyncio.sleep(gap / 1000)
+                if kind == "skip" and vt != "pulse":
+                    kind = "set"           # "unchanged" is judged on the decoded value: only meaningful where values and octets correspond
                 if kind in ("set", "skip"):
                     ev.append({"ev": "set", "v": v, "skip": 1 if kind == "skip" else 0, "t": now()})
                     try:
-                        await es.set(v, skip_unchanged=(kind == "skip"))
+                        await es.set(VALS[vt][v], skip_unchanged=(kind == "skip"))
                     except Exception as ex:  # noqa: BLE001 - recorded, nothing explains it
                         ev.append({"ev": "raised:" + type(ex).__name__, "t": now()})
                 elif kind == "init":
                     ev.append({"ev": "init", "v": v, "t": now()})
-                    es.initialize_value(v)
+                    es.initialize_value(VALS[vt][v])
                 elif kind == "read":
                     ev.append({"ev": "read", "t": now()})
                     xknx.telegrams.put_nowait(Telegram(GroupAddress("1/1/1"), direction=TelegramDirection.INCOMING,
@@ -96,15 +104,16 @@ def run(ck):
     tlc.mc(ck, "dev/Expose_MC", require_actions=False)
     ps = plans(ck)
     ps = [p if len(p) == 3 else (*p, 0) for p in ps]
-    traces = [run_hist(cd, evs, ck.seed, per) for cd, evs, per in ps]
+    vts = ["percent" if i % 3 == 1 else "pulse" for i in range(len(ps))]
+    traces = [run_hist(cd, evs, ck.seed, per, vts[i]) for i, (cd, evs, per) in enumerate(ps)]
     res = tlc.batch(ck, "dev/Expose_Trace", traces, min_per_shard=100)
     for idx, info in sorted(res.bad.items()):
         t = traces[idx]["ev"]
         l = info if isinstance(info, int) else 0
         e = t[l - 1] if 0 < l <= len(t) else None
         ck.violation({"cooldown_ms": ps[idx][0], "periodic_ms": ps[idx][2], "history": [list(x) for x in ps[idx][1]], "rejected": {k: v for k, v in (e or {}).items() if k != "t"}},
-                     f"expose sensor trace (cooldown {ps[idx][0]} ms) rejected at event {l}: {e}; history {ps[idx][1]}; trace {t[:l]}",
-                     {"cd": ps[idx][0], "events": ps[idx][1], "per": ps[idx][2], "trace": t, "rejected_at": l})
+                     f"expose sensor ({vts[idx]}) trace (cooldown {ps[idx][0]} ms) rejected at event {l}: {e}; history {ps[idx][1]}; trace {t[:l]}",
+                     {"cd": ps[idx][0], "events": ps[idx][1], "per": ps[idx][2], "vt": vts[idx], "trace": t, "rejected_at": l})
     muts = []
     for i, tr in enumerate(traces):
         if i in res.bad or len(muts) >= 200:
@@ -141,7 +150,7 @@ def replay(ck, path):
     import json
 
     d = json.loads(open(path).read())["replay"]
-    t = run_hist(d["cd"], [tuple(x) for x in d["events"]], ck.seed, d.get("per", 0))
+    t = run_hist(d["cd"], [tuple(x) for x in d["events"]], ck.seed, d.get("per", 0), d.get("vt", "pulse"))
     res = tlc.batch(ck, "dev/Expose_Trace", [t])
     l = res.bad.get(0)
     print("trace:", t["ev"], "\nrejected at:", l)
